@@ -87,7 +87,7 @@ def wakeOrder (ws : List Waiter) : List Nat → List Waiter
   | [] => ws
   | i :: ord =>
     match ws.find? (fun w => w.id == i) with
-    | some w => w :: wakeOrder (ws.filter (fun x => x.id != i)) ord
+    | some w => w :: wakeOrder (ws.erase w) ord
     | none => wakeOrder ws ord
 
 /-- cond.Broadcast with the given wake order; the waiters that stay are kept in wake order -/
